@@ -230,7 +230,8 @@ def block_obligations(blocks_mod, name):
     if key not in _BLOCK_CACHE:
         b = importlib.import_module(blocks_mod).BLOCKS[name]
         f = get_function(*b["function"])
-        src, target, line = VB.extract_loop_body(f, b["loop"][0], b["loop"][1], name, b["params"], b["returns"])
+        extract = VB.extract_method_loop_body if b.get("method") else VB.extract_loop_body
+        src, target, line = extract(f, b["loop"][0], b["loop"][1], name, b["params"], b["returns"])
         eng = V.Engine(f, dict(b["contract"], name=name), {}, {"_np": None}, source=src)
         obs = eng.generate()
         _BLOCK_CACHE[key] = (obs, sorted(set(eng.opaque_log)), src)
